@@ -264,7 +264,7 @@ fn build_zone_equipment(node: roxmltree::Node) -> ZoneEquipment {
             //      Zona abastecida (Zona),
             //      Capacidad nominal o potencia máxima (kW) (capNom),
             //      // Ancho de banda del termostato (ºC) (fijo, dtTermostato = 50.0)
-            let name = node.attribute("nombre").unwrap().to_string();
+            let name = node.attribute("nombre").unwrap_or_default().to_string();
             ZoneEquipment::HotWaterCoil {
                 name,
                 zone,
@@ -345,7 +345,7 @@ fn build_generation_equipment(node: roxmltree::Node) -> GenerationEquipment {
         .map(|n| {
             (
                 n.tag_name().name().to_string(),
-                n.text().unwrap().trim().trim_matches('"').to_string(),
+                n.text().unwrap_or_default().trim().trim_matches('"').to_string(),
             )
         })
         .collect();
